@@ -91,12 +91,24 @@ def s_reduce(I, recv, args, kw):
     return NONE
 
 
+def s_event_stop(I, recv, args, kw):
+    """contract of Event.stop(): no handler of lower priority runs for the event"""
+    log(I, 'EVSTOP').append(recv)
+    return NONE
+
+
 def tg_post(I, outcome, ctx):
     if no_escape(I, outcome):
         return
     cover(I, 'return')
     a, pre = ctx['args'], ctx['pre']
     self = a['self']
+    # every timer (and the poller / fallback behind the timers) is visited through ITS handler for the same generate_events
+    # event: "a due timer fires in the first loop iteration at or after its expiry" holds for all timers only if no timer ends
+    # the dispatch of that event for the handlers sorted behind it
+    I.oblige('generate_events_left_running_for_the_handlers_behind', z3.BoolVal(len(log(I, 'EVSTOP')) == 0),
+             detail='the timer handler stopped the generate_events event: timers (and the idle-wait handler) sorted behind this one '
+                    'are skipped in this loop iteration')
     e0_none, e0 = z3.Select(pre['expiry_v'][0], self.t), z3.Select(pre['expiry_v'][1], self.t)
     pend0 = z3.And(z3.Select(pre['_unregister_pending'][0], self.t), z3.Select(pre['_unregister_pending'][1], self.t))
     clock = log(I, 'CLOCK')
@@ -123,8 +135,7 @@ def tg_post(I, outcome, ctx):
             I.oblige('next_expiry_one_interval_after_rearm', z3.And(z3.Not(e1.isnone), e1.val.t == resets[0] + iv, resets[0] >= now))
             I.oblige('consecutive_firings_an_interval_apart', z3.Implies(iv >= 0, e1.val.t >= now + iv),
                      detail='the next firing needs clock >= expiry\' >= (this firing time) + interval')
-        I.oblige('loop_not_put_to_sleep_after_firing', z3.BoolVal(red == [red[0]] if red else False) if False else
-                 z3.And(z3.BoolVal(len(red) == 1), *([red[0] == 0] if red else [])))
+        I.oblige('loop_not_put_to_sleep_after_firing', z3.And(z3.BoolVal(len(red) == 1), *([red[0] == 0] if red else [])))
     else:
         I.oblige('state_untouched_when_not_firing', z3.And(I.field(self, 'expiry_v').isnone == e0_none, I.field(self, 'expiry_v').val.t == e0))
         if red:
@@ -140,7 +151,7 @@ TIMER_HOOKS = dict(getattr_hooks={'expiry': expiry_get, 'unregister_pending': pe
 SPECS.append(FucSpec(
     'C09', 'circuits/core/timers.py', 'Timer._on_generate_events', tg_setup, tg_post, fields=T_FIELDS, field_alias=T_ALIAS,
     calls={'time': s_time, 'self.fire': s_timer_fire, 'self.reset': s_timer_reset, 'self.unregister': s_unregister,
-           'event.reduce_time_left': s_reduce},
+           'event.reduce_time_left': s_reduce, 'event.stop': s_event_stop},
     attr_hooks={'self.channels': lambda I: VTuple([])}, cover=['return', 'fired', 'waiting', 'idle'], **TIMER_HOOKS,
     clause='Timer visit: fires its event iff now >= expiry and no unregistration is pending (at most once per visit); a persistent '
            'timer re-arms to now\' + interval with now\' >= now; a one-shot timer unregisters itself; otherwise the idle wait is '
